@@ -34,6 +34,7 @@ class RootResult:
         self.args = None
         self.st0 = None
         self.subjects = None
+        self.entries = []
         self.wall = 0.0
         self.blocks = 0
 
@@ -59,6 +60,63 @@ def setup(E, body):
             v = I(t)
         args.append(v)
     return st, gs, args
+
+
+def entry_variants(E, st, gs, args):
+    """An Option<crate iterator> field inside the receiver (e.g. a half that is cleared once it ended) is, at
+    entry, either Some(unknown iterator) or None: both entry states are analysed.  -> [(state, args)]"""
+    if not args:
+        return [(st, args)]
+    recv = args[0]
+    holder = None
+    v = recv
+    if v[0] == 'ref' and v[2][0] == 'O' and v[2][1] in st.objs:
+        holder = v[2][1]
+        v = st.objs[holder]
+    if v[0] != 'adt':
+        return [(st, args)]
+    spots = []
+
+    def walk(x, path, d=0):
+        if not isinstance(x, tuple) or not x or d > 4 or len(spots) >= 2:
+            return
+        if x[0] == 'unk' and isinstance(x[1], tuple) is False and getattr(x[1], 'get', None) and x[1].get('k') == 'adt' \
+                and x[1].get('path') == 'core::option::Option' and x[1].get('args') \
+                and x[1]['args'][0].get('k') == 'adt' and x[1]['args'][0].get('local'):
+            spots.append((path, x))
+        elif x[0] == 'adt':
+            for i, y in enumerate(x[3]):
+                walk(y, path + (i,), d + 1)
+    walk(v, ())
+    if not spots:
+        return [(st, args)]
+
+    def put(x, path, new):
+        if not path:
+            return new
+        f = list(x[3])
+        f[path[0]] = put(f[path[0]], path[1:], new)
+        return (x[0], x[1], x[2], tuple(f))
+    from .state import some, NONE
+    import itertools
+    out = []
+    for choice in itertools.product((True, False), repeat=len(spots)):
+        s2 = st.fork()
+        cur = s2.objs[holder] if holder else v
+        for (path, x), present in zip(spots, choice):
+            if present:
+                inner = E.mk_unknown(s2, dict(x[1]['args'][0]) if not isinstance(x[1]['args'][0], dict) else x[1]['args'][0],
+                                     x[2] + ('some',), gs)
+                cur = put(cur, path, some(inner))
+            else:
+                cur = put(cur, path, NONE)
+        a2 = list(args)
+        if holder:
+            s2.objs[holder] = cur
+        else:
+            a2[0] = cur
+        out.append((s2, a2))
+    return out
 
 
 def reachable_values(E, st, vals):
@@ -191,12 +249,40 @@ def run_root(E, body, contract=None):
     b0 = E.stats['blocks']
     try:
         st, gs, args = setup(E, body)
-        if rr.args is None:
-            from . import specs
+        variants = entry_variants(E, st, gs, args)
+        rr.entries = []
+        first = True
+        for st, args in variants:
+            _run_entry(E, body, rr, st, gs, args, contract, first)
+            first = False
+        E.chain = []
+    except Budget:
+        E.violate('SHAPE', 'unproven', 'budget', 'step budget exhausted')
+        rr.error = 'budget'
+    except Unproven as e:
+        E.violate('SHAPE', 'unproven', 'interpreter', str(e))
+        rr.error = str(e)
+    except RecursionError:
+        E.violate('SHAPE', 'unproven', 'interpreter', 'recursion limit')
+        rr.error = 'recursion'
+    rr.wall = time.time() - t0
+    rr.blocks = E.stats['blocks'] - b0
+    E.contract = None
+    return rr
+
+
+def _run_entry(E, body, rr, st, gs, args, contract, first):
+    if True:
+        from . import specs
+        if first:
             rr.args = list(args)
             rr.subjects = specs.subjects_of(E, st, args)
             rr.st0 = st.fork()
-        E.root_entry = (list(args), rr.st0 if rr.st0 is not None else st.fork())
+        st0 = rr.st0 if first else st.fork()
+        rr.entries.append((list(args), st0))
+        st.notes = st.notes + (('entry', len(rr.entries) - 1),)
+        E.root_entry = (list(args), st0)
+        E._roles_cache = None
         from . import specs as _specs
         ap = _specs.ASKED_ONCE.get(_specs.root_key(body))
         E.asked_props = ap
@@ -229,20 +315,6 @@ def run_root(E, body, contract=None):
             except Unproven as e:
                 E.violate('SHAPE', 'unproven', 'exit', str(e))
             rr.outcomes.append((kind, s, v))
-        E.chain = []
-    except Budget:
-        E.violate('SHAPE', 'unproven', 'budget', 'step budget exhausted')
-        rr.error = 'budget'
-    except Unproven as e:
-        E.violate('SHAPE', 'unproven', 'interpreter', str(e))
-        rr.error = str(e)
-    except RecursionError:
-        E.violate('SHAPE', 'unproven', 'interpreter', 'recursion limit')
-        rr.error = 'recursion'
-    rr.wall = time.time() - t0
-    rr.blocks = E.stats['blocks'] - b0
-    E.contract = None
-    return rr
 
 
 def analyse(facts, only=None, verbose=False):
